@@ -26,7 +26,8 @@ theorem originText_eq (w : Text × Text × Option Text) : originText w = w.1 ++ 
 def originOf (e : Env) (o : Ovr) : Text × Text × Option Text :=
   if o.scheme.isSome || o.host.isSome || o.port.isSome then wanted e o.scheme o.host o.port else hostUrlParts e
 
-theorem quoteBytes_congr (s1 s2 : List UInt8) (h : ∀ b, s1.contains b = s2.contains b) (bs : Bytes) :
+theorem quoteBytes_congr (s1 s2 : List UInt8)
+    (h : ∀ b, (isUnreserved b || s1.contains b) = (isUnreserved b || s2.contains b)) (bs : Bytes) :
     quoteBytes s1 bs = quoteBytes s2 bs := by
   induction bs with
   | nil => rfl
